@@ -1159,13 +1159,15 @@ def mpf_perturb(x, eps_sign, prec, rnd):
 #                              Radix conversion                              #
 #----------------------------------------------------------------------------#
 
-def to_digits_exp(s, dps):
+def to_digits_exp(s, dps, exact=False):
     """Helper function for representing the floating-point number s as
     a decimal with dps digits. Returns (sign, string, exponent) where
     sign is '' or '-', string is the digit string, and exponent is
     the decimal exponent as an int.
 
-    If inexact, the decimal representation is rounded toward zero."""
+    If inexact, the decimal representation is rounded toward zero.
+    Bits of s beyond the requested number of digits (plus guard bits) are
+    discarded first unless exact=True."""
 
     # Extract sign first so it doesn't mess up the string digit count
     if s[0]:
@@ -1203,6 +1205,8 @@ def to_digits_exp(s, dps):
     # fixed-point number and then converting that number to
     # a decimal fixed-point number.
     fixprec = max(bitprec - exp - bc, 0)
+    if exact:
+        fixprec = max(fixprec, -exp)
     fixdps = int(fixprec / math.log(10,2) + 0.5)
     sf = to_fixed(s, fixprec)
     sd = bin_to_radix(sf, fixprec, 10, fixdps)
@@ -1249,6 +1253,10 @@ def to_str(s, dps, strip_zeros=True, min_fixed=None, max_fixed=None,
     # to_digits_exp rounds to floor.
     # This sometimes kills some instances of "...00001"
     sign, digits, exponent = to_digits_exp(s, dps+3)
+    if dps and digits[dps:dps+1] == '4' and digits[dps+1:-2].strip('9') == '':
+        # The guard digits of a truncated long mantissa may really be 500:
+        # redo the conversion without discarding bits
+        sign, digits, exponent = to_digits_exp(s, dps+3, True)
 
     # No digits: show only .0; round exponent to nearest
     if not dps:
